@@ -562,8 +562,16 @@ sign<Number> sign<Number>::operator/(const sign<Number> &o) const {
     return top();
   } else {
     // Once we exclude top, bottom, zero, and non-zero
-    // signed division is like multiplication
-    return (*this) * o;
+    // signed division is like multiplication, except that the
+    // quotient of two non-zero integers can be zero (1/2 = 0).
+    sign<Number> res = (*this) * o;
+    if (res.greater_than_zero()) {
+      return mk_greater_or_equal_than_zero();
+    } else if (res.less_than_zero()) {
+      return mk_less_or_equal_than_zero();
+    } else {
+      return res;
+    }
   }
 }
 
